@@ -126,6 +126,7 @@ private:
     bool isModelInteger(LVRef v) const;
     TRes cutFromProof();
     bool shouldTryCutFromProof() const;
+    mutable unsigned long cutFromProofCounter{0};
 
     void getSuggestions(vec<PTRef> & dst, SolverId solver_id); // find possible suggested atoms
     void getSimpleDeductions(LABoundRef);                      // find deductions from actual bounds position
